@@ -217,8 +217,76 @@ func (m *schedMachine) Exec(op Tok) (opOut Tok, obs Tok) {
 		return TL(a[0], a[1], o), x
 	case 2:
 		return m.pair(op)
+	case 3:
+		return m.attachPair(op)
 	}
 	return op, TL(TNu(9))
+}
+
+// attachPair: (3 <update op of the structure> schedule): one client obtains a second handle from the
+// metadata key (NewXFromKey) while another issues the update through the first handle, interleaved
+// at Redis-command granularity. Attaching reads; it must not undo an update that lands between its
+// commands. For the model the step is the update alone, so the op is handed on in its sequential
+// form (0 kind op) together with the update's own observation.
+func (m *schedMachine) attachPair(op Tok) (Tok, Tok) {
+	a := op.L
+	inv := TL(TNu(9))
+	sub := m.subs[m.kind]
+	if sub == nil || len(a) < 3 {
+		return op, inv
+	}
+	turns := make([]int, len(a[2].L))
+	for i, t := range a[2].L {
+		if t.U() != 0 {
+			turns[i] = 0
+		} else {
+			turns[i] = 1
+		}
+	}
+	var attach func()
+	switch m.kind {
+	case 1:
+		f := m.subs[1].(*bloomRedis).inst[0]
+		if f == nil {
+			return op, inv
+		}
+		attach = func() { gx.NewRedisBloomFilterFromKey(f.GetMetadataKey()) }
+	case 2:
+		s := m.subs[2].(*cmsRedis).inst[0]
+		if s == nil {
+			return op, inv
+		}
+		attach = func() { gx.NewCountMinSketchRedisFromKey(s.MetadataKey()) }
+	case 3:
+		h := m.subs[3].(*hllRedis).inst[0]
+		if h == nil {
+			return op, inv
+		}
+		attach = func() { gx.NewHyperLogLogRedisFromKey(h.MetadataKey()) }
+	case 4:
+		f := m.subs[4].(*cuckooRedis).inst[0]
+		if f == nil {
+			return op, inv
+		}
+		_, meta := gx.VerifCuckooRedisKeys(f)
+		attach = func() { gx.NewCuckooFilterRedisFromKey(meta) }
+	case 5:
+		t := m.subs[5].(*topkRedis).inst[0]
+		if t == nil {
+			return op, inv
+		}
+		attach = func() { gx.NewTopKRedisFromKey(t.MetadataKey()) }
+	default:
+		return op, inv
+	}
+	var uo, ux Tok
+	fa := func() uint64 { attach(); return 1 }
+	fb := func() uint64 { uo, ux = sub.Exec(a[1]); return 1 }
+	_, _, _, ok := runPair(turns, fa, fb)
+	if !ok {
+		return TL(TNi(0), TNi(m.kind), a[1]), TL(TNu(7))
+	}
+	return TL(TNi(0), TNi(m.kind), uo), ux
 }
 
 func resTok(ok bool, r uint64) Tok {
@@ -274,10 +342,20 @@ func (m *schedMachine) pair(op Tok) (Tok, Tok) {
 			}
 			return 1
 		}
-		// the second client works through its own handle (re-attached): allSum is handle-local
-		s2, err := gx.NewCountMinSketchRedisFromKey(s.MetadataKey())
-		if err != nil {
-			return op, inv
+		// the second client works through its own handle (re-attached; allSum is handle-local), or,
+		// when the pair says so, both goroutines share the one handle
+		s2 := s
+		if len(a) > 4 && a[4].U() == 1 {
+			// ... on a server whose script cache is cold (restart, first use from this process):
+			// every EVALSHA is answered NOSCRIPT and followed by an EVAL, two commands per call
+			rcli.ScriptFlush(context.Background())
+		}
+		if !(len(a) > 4 && a[4].U() == 1) {
+			var err error
+			s2, err = gx.NewCountMinSketchRedisFromKey(s.MetadataKey())
+			if err != nil {
+				return op, inv
+			}
 		}
 		fb = func() uint64 {
 			if s2.Update(cb[0].B, cb[1].U()) != nil {
